@@ -94,6 +94,7 @@ class Ctx:
         self._last_failure = None
         self._given_index = 0
         self.max_samples = 4
+        self.history = None  # name of the prelude this shard ran before its first case (history.py)
 
     # -- sizing ---------------------------------------------------------------
     def quick(self):
@@ -128,6 +129,9 @@ class Ctx:
         if signature in self.known:
             self.known_hits[signature] = self.known_hits.get(signature, 0) + 1
             return False
+        if self.history and isinstance(payload, dict):
+            payload = dict(payload, _history=self.history)
+            message = f"{message} [after the process had run the '{self.history}' prelude]"
         self._last_failure = {"signature": signature, "message": message, "payload": jsonable(payload)}
         raise CheckFailure(signature, message, payload)
 
@@ -227,6 +231,29 @@ def unexpected_exception(exc, label):
     raise HarnessError(f"exception inside the harness ({label}):\n{text}")
 
 
+def enter_contexts(mod, ctx):
+    """Contexts a check opts into: MIX (deliveries, see context.py) and HISTORY (what the process did before, see history.py)."""
+    if getattr(mod, "MIX", False):
+        from . import observe
+
+        observe.mix(True, getattr(mod, "MIX_EXCLUDE", ()))
+    if getattr(mod, "HISTORY", False):
+        from . import history
+
+        ctx.history = history.prelude_for(ctx.shard)
+        if ctx.history:
+            history.run(ctx.history)
+            ctx.count(f"history:{ctx.history}")
+
+
+def leave_contexts(mod, ctx):
+    if getattr(mod, "MIX", False):
+        from . import observe
+
+        for k, v in observe.DELIVERIES.items():
+            ctx.count(f"delivery:{k}", v)
+
+
 def _worker(args):
     modname, prop, tier, seed, shard, nshards = args
     try:
@@ -234,12 +261,74 @@ def _worker(args):
 
         mod = importlib.import_module(modname)
         ctx = Ctx(prop, tier, seed, shard, nshards)
+        enter_contexts(mod, ctx)
         mod.run_shard(ctx)
+        leave_contexts(mod, ctx)
         return {"shard": shard, "ok": True, **ctx.result()}
     except HarnessError as exc:
         return {"shard": shard, "ok": False, "error": str(exc)}
     except BaseException as exc:  # noqa: BLE001
         return {"shard": shard, "ok": False, "error": "".join(traceback.format_exception(type(exc), exc, exc.__traceback__))[-4000:]}
+
+
+OLANE_SHARDS = 2
+
+
+def start_olane(mod, tier, seed, nshards):
+    """Checks with OLANE = True additionally run OLANE_SHARDS shards (with a seed of their own) in an interpreter started with
+    -O: assert statements of the library are compiled out there (optimised / packaged installs), and the property still has to hold."""
+    if not getattr(mod, "OLANE", False) or os.environ.get("VERIF_NO_OLANE") == "1":
+        return None
+    import subprocess
+    import tempfile
+
+    fd, out = tempfile.mkstemp(prefix="tv-olane-", suffix=".json")
+    os.close(fd)
+    cmd = [sys.executable, "-O", "-m", "tv.olane", mod.__name__, mod.ID, tier, str(seed), str(nshards), out]
+    env = dict(os.environ, PYTHONHASHSEED="0")
+    return subprocess.Popen(cmd, cwd=VERIF, env=env, stdout=subprocess.DEVNULL, stderr=subprocess.PIPE, text=True), out
+
+
+def finish_olane(olane, timeout):
+    import subprocess
+
+    proc, out = olane
+    try:
+        try:
+            _, err = proc.communicate(timeout=timeout)
+        except subprocess.TimeoutExpired:
+            proc.kill()
+            return None
+        try:
+            with open(out) as f:
+                results = json.load(f)
+        except Exception:  # noqa: BLE001
+            return [{"shard": "O", "ok": False, "error": f"the python -O lane produced no result (exit {proc.returncode}): {err[-2000:]}"}]
+        return results
+    finally:
+        if os.path.exists(out):
+            os.unlink(out)
+
+
+def olane_main(argv):
+    """Entry point of the -O lane (python -O -m tv.olane <module> <prop> <tier> <seed> <nshards> <out>)."""
+    modname, prop, tier, seed, nshards, out = argv
+    if __debug__:
+        raise SystemExit("the -O lane must run under python -O")
+    seed_o = derive_seed(int(seed), "python -O")
+    args = [(modname, prop, tier, seed_o, (i * 7 + 3) % int(nshards), int(nshards)) for i in range(OLANE_SHARDS)]
+    with mp.get_context("fork").Pool(OLANE_SHARDS) as pool:
+        results = pool.map(_worker, args, chunksize=1)
+    for r in results:
+        r["shard"] = f"O{r['shard']}"
+        for f in r.get("failures", []):
+            f["message"] = "[interpreter started with -O] " + f["message"]
+            if isinstance(f.get("payload"), dict):
+                f["payload"]["_python_O"] = True
+        if r.get("ok"):
+            r["counters"] = {**r["counters"], "python-O-lane:shards": 1, "python-O-lane:evaluations": r["evaluations"]}
+    with open(out, "w") as f:
+        json.dump(results, f)
 
 
 def write_replay(prop, failure):
@@ -260,14 +349,23 @@ def run_check(mod, tier, seed, nshards=NSHARDS):
     limit_s = float(os.environ.get("VERIF_WALL_LIMIT", "7200" if tier == "thorough" else "1500"))
     args = [(mod.__name__, prop, tier, seed, i, nshards) for i in range(nshards)]
     ctx_mp = mp.get_context("fork")
+    olane = start_olane(mod, tier, seed, nshards)
     with ctx_mp.Pool(nshards) as pool:
         async_res = pool.map_async(_worker, args, chunksize=1)
         try:
             results = async_res.get(timeout=limit_s)
         except mp.TimeoutError:
             pool.terminate()
+            if olane:
+                olane[0].kill()
             print(f"INCONCLUSIVE property={prop}: wall-clock guard of {limit_s}s hit (not a violation)")
             return 2
+    if olane:
+        extra_results = finish_olane(olane, max(60.0, limit_s - (time.time() - t0)))
+        if extra_results is None:
+            print(f"INCONCLUSIVE property={prop}: the python -O lane did not finish (not a violation)")
+            return 2
+        results = results + extra_results
     errors = [r for r in results if not r["ok"]]
     if errors:
         for r in errors:
@@ -367,7 +465,20 @@ def run_replay(mod, path):
     ctx = Ctx(prop, "quick", 0, 0, 1)
     ctx.known = {}  # a replay shows the failure even if it is listed
     try:
-        mod.replay(ctx, unjson(rec["payload"]))
+        payload = unjson(rec["payload"])
+        if isinstance(payload, dict) and payload.pop("_python_O", False) and __debug__:
+            # found in the -O lane: replay under the same interpreter flags
+            os.execve(sys.executable, [sys.executable, "-O", "-m", "tv.run", prop, "--replay", path], dict(os.environ, PYTHONHASHSEED="0"))
+        if getattr(mod, "MIX", False):
+            from . import observe
+
+            observe.mix(True, getattr(mod, "MIX_EXCLUDE", ()))
+        if isinstance(payload, dict) and payload.get("_history"):
+            from . import history
+
+            ctx.history = payload.pop("_history")
+            history.run(ctx.history)
+        mod.replay(ctx, payload)
     except CheckFailure as cf:
         print(f"  signature: {cf.signature}\n  message: {cf.message[:1500]}")
         print(f"VIOLATION property={prop} replay={path}")
